@@ -14,6 +14,11 @@ extern const handle_type HANDLE_INVALID;
 // Sets the `FD_CLOEXEC` flag on the file descriptor. POSIX only.
 int handle_cloexec(handle_type handle, bool enable);
 
+// Descriptors 0-2 are reserved for the standard streams. If `*handle` is one of
+// them (the parent closed a standard stream and the kernel handed out its
+// number), it is replaced by a duplicate above 2. POSIX only.
+int handle_above_std(handle_type *handle);
+
 // Closes `handle` if it is not an invalid handle and returns an invalid handle.
 // Does not overwrite the last system error if an error occurs while closing
 // `handle`.
